@@ -54,7 +54,14 @@ func tns(t time.Time) string {
 	return b.String()
 }
 
-func fbits(f float64) string { return strconv.FormatUint(math.Float64bits(f), 10) }
+// fbits: the bit pattern of a float; every NaN prints as "nan" (the payload of a NaN produced by the
+// hardware, 0xFFF8… for 0/0 on amd64, is not part of the value and differs from math.NaN()).
+func fbits(f float64) string {
+	if math.IsNaN(f) {
+		return "nan"
+	}
+	return strconv.FormatUint(math.Float64bits(f), 10)
+}
 
 // lineOf renders every exported field of a closed Metrics (without percentiles).
 func lineOf(m *vegeta.Metrics) string {
@@ -240,7 +247,11 @@ func genResults(r *kit.Rng, n int, inDomain bool, s *kit.Summary) []res {
 		case 1:
 			out[i].Code = uint16(r.PickI64([]int64{0, 100, 199, 200, 201, 204, 301, 302, 399, 400, 404, 429, 500, 502, 503, 599, 600, 65535}))
 		case 2:
-			out[i].Code = uint16(r.Range(0, 65535))
+			if n > 5000 { // keep the model's sorted association list short on very long histories
+				out[i].Code = uint16(r.Range(0, 999))
+			} else {
+				out[i].Code = uint16(r.Range(0, 65535))
+			}
 		default:
 			out[i].Code = uint16(r.PickI64([]int64{200, 200, 200, 200, 0, 500, 503, 302}))
 		}
@@ -610,10 +621,15 @@ func reportCommand(c *run.Ctx, r *kit.Rng, s *kit.Summary) {
 			s.Diverge("c10.report", "write "+in, err.Error(), "")
 			continue
 		}
+		// periodic reporting (Close between additions). A tick that takes longer to serve than the
+		// interval starves decoding (select prefers the ready ticker over default), so long inputs get 20ms.
 		every := int64(0)
-		if i%40 == 39 || r.Chance(0.2) {
-			every = 1000000 // periodic reporting: Close between additions
-			s.Count("report:every>0")
+		if size >= 5000 {
+			every = 20000000
+			s.Count("report:every=20ms")
+		} else if r.Chance(0.2) {
+			every = 1000000
+			s.Count("report:every=1ms")
 		}
 		s.Count("report:format=" + []string{"gob", "json", "csv"}[format])
 		ops = append(ops, fmt.Sprintf("report %s %d - %s %s", kit.HexS("json"), every, kit.HexS(out), kit.HexS(in)))
@@ -691,6 +707,8 @@ func runC10(c *run.Ctx, s *kit.Summary) {
 		{Results: nil, Closes: []int{2}},
 	} {
 		s.Case(fmt.Sprint("fixed:", h), true)
+		_, l := runImpl(h)
+		s.Sample(map[string]interface{}{"op": "c10.run", "history": h, "impl": l})
 		checkHistory(r, s, st, h, true)
 	}
 	sec := &kit.Stream{Name: "c10.seconds"}
